@@ -26,10 +26,64 @@ def call_name(call):
     return ""
 
 
+_CURRENT = {"prog": None, "owner": None, "facts": {}}
+
+
+def set_current_program(prog):
+    if _CURRENT["prog"] is not prog:
+        _CURRENT["prog"], _CURRENT["owner"], _CURRENT["facts"] = prog, None, {}
+
+
+def _recv_alias(call):
+    """`x.m()` where the local x is, at this call, known to denote `self.attr` (a definition fact `x := self.attr`
+    holds on entry to the statement): the attribute chain, else None."""
+    prog = _CURRENT["prog"]
+    if prog is None:
+        return None
+    if _CURRENT["owner"] is None:
+        owner = {}
+        for f in prog.funcs.values():
+            for n in walk_body_shallow(f.body):
+                if isinstance(n, ast.Call):
+                    owner[id(n)] = f
+        _CURRENT["owner"] = owner
+    f = _CURRENT["owner"].get(id(call))
+    if f is None:
+        return None
+    ent = _CURRENT["facts"].get(f.qname)
+    if ent is None:
+        from ..cfg import CFG
+
+        try:
+            c = CFG(f)
+            ent = (c, c.must_facts(prog)[0])
+        except Exception:  # noqa: BLE001
+            ent = (None, None)
+        _CURRENT["facts"][f.qname] = ent
+    c, facts = ent
+    if c is None:
+        return None
+    from ..cfg import def_facts
+
+    nodes = c.containing(call)
+    if not nodes:
+        return None
+    d = def_facts(facts[nodes[0].id]).get(call.func.value.id)
+    if d is not None and attr_chain(d) and attr_chain(d).startswith("self."):
+        return attr_chain(d)
+    return None
+
+
 def call_recv(call):
-    """Text of the receiver of a method call, or None."""
+    """Text of the receiver of a method call, or None.  A local that is a flow-sensitively known alias of an attribute
+    (`d = self._x ... d.cancel()`) is reported as that attribute."""
     if isinstance(call.func, ast.Attribute):
-        return unparse(call.func.value)
+        v = call.func.value
+        if isinstance(v, ast.Name) and v.id not in ("self", "cls"):
+            a = _recv_alias(call)
+            if a is not None:
+                return a
+        return unparse(v)
     return None
 
 
@@ -158,6 +212,11 @@ def registrations(func, prog):
                 break
             cur = cur.func.value
         root = cur
+        root_text = unparse(root)
+        if isinstance(root, ast.Name) and chain:
+            a = _recv_alias(chain[-1])  # innermost call of the chain: its receiver is the root
+            if a is not None:
+                root_text = a
         for c in reversed(chain):
             kind = REG_METHODS[c.func.attr]
             cb = eb = None
@@ -172,7 +231,7 @@ def registrations(func, prog):
                 eb = kwarg(c, "errback", 1)
             if kind == "cbs" and cb is not None and eb is not None and unparse(cb) == unparse(eb):
                 kind = "both"  # addCallbacks(h, h) is addBoth(h)
-            regs.append({"root": unparse(root), "root_node": root, "kind": kind, "cb": cb, "eb": eb, "call": c,
+            regs.append({"root": root_text, "root_node": root, "kind": kind, "cb": cb, "eb": eb, "call": c,
                          "lineno": c.lineno})
     regs.sort(key=lambda r: (r["call"].end_lineno, r["call"].end_col_offset))
     return regs
